@@ -381,6 +381,18 @@ func main() {
 		return
 	}
 	runner.Main(runner.Check{
+		RacePass: func(n int, scratch string) (int, []string) {
+			total, ps := 0, []string(nil)
+			for i, sc := range scenarios("quick") {
+				if i%5 != 0 {
+					continue
+				}
+				d, p := vexp.RacePass(scenario(sc, scratch), n)
+				total += d
+				ps = append(ps, p...)
+			}
+			return total, ps
+		},
 		ID:          "C11",
 		Level:       "model_checking",
 		Rule:        "3 threads (two writers, one reader, programs from a fixed menu incl. commit/abort/leave-open/zero-length/direct/split writes) x optional pre-population x cache configs (dir default, SyncAdd, Direct, memory[, FadvDontNeed]) with data LRU = fd LRU = 1 over 3 keys, real files on tmpfs; every schedule within the preemption bound (file-system namespace operations are scheduling points); values are self-describing; non-trivial = scenario with more than one distinct observation log",
